@@ -11,6 +11,23 @@ from .values import (Sym, SInt, SBool, SVal, SKey, SSeq, SView, SMap, SObj, Clas
                      Builtin, AbstractCallable, PyExc, OutOfSubset, EXC_BASES, LazyDict, unmap)
 
 
+class Partial(object):
+    def __init__(self, fn, args, kwargs):
+        self.fn, self.args, self.kwargs = fn, list(args), dict(kwargs)
+
+
+def _partial(it, args, kw):
+    p = Partial(args[0], args[1:], kw)
+
+    def apply(it2, a, k):
+        kk = dict(p.kwargs)
+        kk.update(k)
+        return it2.call(p.fn, p.args + list(a), kk)
+    ac = AbstractCallable('partial', apply)
+    ac.partial = p
+    return ac
+
+
 class LoopSpec(object):
     """Sidecar loop contract: inv(it, env, i, seq) -> z3 Bool; havoc(it, env) re-binds the variables the
     body modifies to fresh symbols; variant(it, env) -> z3 Int (while loops)."""
@@ -299,6 +316,8 @@ class World(object):
                 it.raise_('KeyError', args[0])
             return None
         if isinstance(obj, dict) and name in ('keys', 'values', 'items'):
+            if name == 'keys' and not has_sym(list(obj.keys())):
+                return obj.keys()
             return list(getattr(obj, name)())
         if isinstance(obj, dict) and name == 'update' and args:
             src = args[0]
@@ -660,6 +679,16 @@ class World(object):
                     return args[2]
                 raise
 
+        @reg('hasattr')
+        def _hasattr(it, args, kw):
+            try:
+                it.getattr(args[0], args[1])
+                return True
+            except PyExc as e:
+                if e.cls == 'AttributeError':
+                    return False
+                raise
+
         @reg('callable')
         def _callable(it, args, kw):
             return isinstance(args[0], (Closure, BoundMethod, Builtin, AbstractCallable, ClassRef)) or callable(args[0])
@@ -712,7 +741,7 @@ class World(object):
             'numbers': NS('numbers', {n: ClassRef(n) for n in ('Number', 'Integral', 'Real', 'Complex', 'Rational')}),
             're': NS('re', {}, fallback=_re),
             'sys': NS('sys', {'version_info': sys.version_info, 'exc_info': Builtin('exc_info', lambda it, a, k: (None, getattr(it, 'current_exc', None), None))}),
-            'functools': NS('functools', {}, fallback=functools),
+            'functools': NS('functools', {'partial': Builtin('functools.partial', _partial)}, fallback=functools),
             'datetime': NS('datetime', {n: ClassRef('datetime.' + n) for n in ('datetime', 'date', 'time', 'timedelta')}),
             'copy': NS('copy', {}),
             'json': NS('json', {}),
